@@ -45,6 +45,9 @@ def run(ctx):
     ctx.floor("R6", 2)
     R.rule_G4_handlers(ctx, funcs)
     R.rule_G6_no_extra_pruning(ctx, typer)
+    R.rule_G7_fanout_dedup(ctx, typer)
+    ctx.floor("G7", 1)
+    R.rule_G1b_dotall(ctx, typer)
     ctx.floor("G6", 1)
     hits, stats = lint_program(ctx.p, typer, files={R.RES})
     ctx.instances["G5"] = stats["typed_node"] + stats["typed_node_seq"]
